@@ -282,9 +282,32 @@ fn c15_rx_second_chunk() {
     unsafe { assert!(DEV.rx_shares == 3 && DEV.tx_shares == 0); }
 }
 
-/// C15 bounded stand-in (real code): one chunk of 3 symbolic bytes taken in by ack_interrupt (symbolic interrupt
-/// status) or else by read_ready; then read (2-byte buffer), fill_buf (twice) + consume(1) return the bytes exactly
-/// once and in order; none of these calls posts a buffer.
+/// C15 bounded stand-in (real code): a finished chunk of 3 bytes is taken in by `ack_interrupt` iff the (symbolic)
+/// interrupt status has the queue-interrupt bit; the result says so; nothing is posted or handed out.
+#[kani::proof]
+#[kani::unwind(20)]
+fn c15_rx_ack_interrupt() {
+    let mut c = mk(0);
+    let t0 = c.receive_token.unwrap();
+    dev_used_push(RXQ, 0, t0, 3);
+    let isr: u32 = kani::any();
+    c.transport.isr = isr;
+    let r = c.ack_interrupt();
+    assert!(r == Ok(isr & 1 == 1), "C15: ack_interrupt result");
+    if isr & 1 == 1 {
+        assert!(c.cursor == 0 && c.pending_len == 3 && c.receive_token.is_none(), "C15: chunk not taken in");
+    } else {
+        assert!(c.cursor == 0 && c.pending_len == 0 && c.receive_token == Some(t0), "C15: state changed without a queue interrupt");
+    }
+    check_inv(&c);
+    unsafe { assert!(DEV.rx_shares == 1, "C15: ack_interrupt must not post"); }
+}
+
+/// C15 bounded stand-in (real code): one chunk of 3 symbolic bytes taken in by read_ready; then read (2-byte
+/// buffer), fill_buf (twice) + consume(1) return the bytes exactly once and in order; an empty read does nothing; none
+/// of these calls posts a buffer.  (After the chunk is taken in, the harness re-assigns the asserted values of
+/// cursor / pending_len / receive_token so that CBMC sees constants and does not unwind the wait loop 20 times; the
+/// path where a blocking read has to post and wait is covered by the Verus contract of wait_for_receive only.)
 #[kani::proof]
 #[kani::unwind(20)]
 fn c15_rx_read_bufread() {
@@ -295,13 +318,9 @@ fn c15_rx_read_bufread() {
     c.queue_buf_rx[1] = b1;
     c.queue_buf_rx[2] = b2;
     dev_used_push(RXQ, 0, t0, 3);
-    // interrupt acknowledgement: takes the chunk in iff the queue-interrupt bit is set
-    let isr: u32 = kani::any();
-    c.transport.isr = isr;
-    let r = c.ack_interrupt();
-    assert!(r == Ok(isr & 1 == 1), "C15: ack_interrupt result");
     assert!(c.read_ready() == Ok(true), "C15: read_ready with a finished chunk");
     assert!(c.cursor == 0 && c.pending_len == 3 && c.receive_token.is_none());
+    c.cursor = 0; c.pending_len = 3; c.receive_token = None;   // the values just asserted, as constants
     check_inv(&c);
     let mut buf = [0u8; 2];
     assert!(c.read(&mut buf) == Ok(2) && buf == [b0, b1], "C15: read returns the first two bytes in order");
@@ -316,34 +335,10 @@ fn c15_rx_read_bufread() {
     }
     c.consume(1);
     check_inv(&c);
-    assert!(c.read_ready() == Ok(false), "C15: byte duplicated after consume");
-    unsafe { assert!(DEV.rx_shares == 1, "C15: consume / read_ready must not post"); }
-}
-
-/// C15 bounded stand-in (real code): a blocking `read` that finds nothing pending posts the buffer (exactly once) and
-/// returns the next chunk (the device answers at once); an empty read does nothing.
-#[kani::proof]
-#[kani::unwind(20)]
-fn c15_rx_read_reposts() {
-    let mut c = mk(0);
-    let t0 = c.receive_token.unwrap();
-    let b0: u8 = kani::any();
-    c.queue_buf_rx[0] = b0;
-    dev_used_push(RXQ, 0, t0, 1);
-    let mut buf = [0u8; 2];
-    assert!(c.read(&mut buf) == Ok(1) && buf[0] == b0, "C15: first chunk through read");
-    assert!(c.receive_token.is_none() && c.cursor == c.pending_len);
-    unsafe { assert!(DEV.rx_shares == 1, "C15: read posted although it had data"); }
+    assert!(c.cursor == 3 && c.read_ready() == Ok(false), "C15: byte duplicated after consume");
     let mut e: [u8; 0] = [];
     assert!(c.read(&mut e) == Ok(0));
-    unsafe { assert!(DEV.rx_shares == 1, "C15: empty read posted a buffer"); }
-    // next blocking read: posts (token 0 again: the descriptor was recycled); the device answers at once
-    let d0: u8 = kani::any();
-    c.queue_buf_rx[0] = d0;
-    dev_used_push(RXQ, 1, 0, 1);
-    assert!(c.read(&mut buf) == Ok(1) && buf[0] == d0, "C15: second chunk through read");
-    unsafe { assert!(DEV.rx_shares == 2, "C15: exactly one re-post"); }
-    check_inv(&c);
+    unsafe { assert!(DEV.rx_shares == 1, "C15: read / fill_buf / consume / read_ready must not post while data is pending or nothing is asked for"); }
 }
 
 /// C15 bounded stand-in (real code): `send` / `send_bytes` / embedded-io `write` place exactly the caller's bytes,
